@@ -234,6 +234,10 @@ bool StepScript(InterpreterEnv& env)
         // every script of a spend is subject to the script size limit, not just the first
         if ((env.sigversion == SigVersion::BASE || env.sigversion == SigVersion::WITNESS_V0) && env.successor_script.size() > MAX_SCRIPT_SIZE)
             return set_error(serror, SCRIPT_ERR_SCRIPT_SIZE);
+        // the scriptSig is a script of its own: its conditionals must be closed, and the next script starts with an empty alt stack
+        if (!vfExec.empty())
+            return set_error(serror, SCRIPT_ERR_UNBALANCED_CONDITIONAL);
+        env.altstack.clear();
         script = env.successor_script;
         env.successor_script.clear();
         pc = env.pbegincodehash = script.begin();
